@@ -323,6 +323,10 @@ def rule_lattice(prog: Program) -> List[Instance]:
             ok = call_name(c) == want and args == {A, e}
             out.append(Instance("R-LATTICE", cid, OK if ok else BAD,
                                 f"{A} = {want}({e}, {A})" if ok else f"`{short(upd[0])}`: component {i} of a {'union' if lo_fn == 'min' else 'intersection'} must be {want}({e}, {A})", f.where(upd[0])))
+        skips = [x for x in ast.walk(loop) if isinstance(x, (ast.Continue, ast.Break))]
+        out.append(Instance("R-LATTICE", f"{q}#every-box-contributes", BAD if skips else OK,
+                            f"the fold loop can skip a box (`{type(skips[0]).__name__.lower()}` at line {skips[0].lineno}): the result then depends on operand order and need not {'contain' if lo_fn == 'min' else 'be contained in'} each operand" if skips
+                            else "every box of the stream updates the accumulators", f.where(loop)))
         ret = [n for n in f.node.body if isinstance(n, ast.Return)]
         ok = bool(ret) and isinstance(ret[0].value, ast.Call) and [short(a) for a in ret[0].value.args[:4]] == acc
         out.append(Instance("R-LATTICE", f"{q}#result-order", OK if ok else BAD, f"BoundingBox({', '.join(acc)}, crs)" if ok else "result components are not returned in (left, bottom, right, top) order", f.where()))
@@ -943,9 +947,20 @@ def rule_signrole(prog: Program) -> List[Instance]:
     for n in walk_own(sg.node):
         if isinstance(n, ast.Call) and call_name(n) == "_snap_edge" and len(n.args) >= 3:
             a0, a1 = n.args[0], n.args[1]
-            ok = all(isinstance(a, ast.BinOp) and isinstance(a.op, ast.Sub) and isinstance(a.right, ast.Name) for a in (a0, a1))
-            off_nm = a0.right.id if ok else None
-            ok = ok and a1.right.id == off_nm and short(a0.left) == x0p and short(a1.left) == x1p and short(n.args[2]) == resp
+
+            def _shift(a: ast.AST, param: str) -> Optional[str]:
+                """name of the offset subtracted from ``param`` before it reaches the snapper"""
+                if isinstance(a, ast.BinOp) and isinstance(a.op, ast.Sub) and isinstance(a.right, ast.Name) and short(a.left) == param:
+                    return a.right.id
+                if isinstance(a, ast.Name) and a.id == param:
+                    for x in walk_own(sg.node):
+                        if isinstance(x, ast.AugAssign) and isinstance(x.op, ast.Sub) and short(x.target) == param and isinstance(x.value, ast.Name) and x.lineno < n.lineno:
+                            return x.value.id
+                return None
+
+            o0, o1 = _shift(a0, x0p), _shift(a1, x1p)
+            off_nm = o0
+            ok = o0 is not None and o0 == o1 and short(n.args[2]) == resp
             out.append(Instance("R-SIGNROLE", f"{sg.qual}#anchor-offset-in", OK if ok else BAD, "anchor offset subtracted from both ends before snapping" if ok else f"`{short(n)}` does not remove one anchor offset from both ends", sg.where(n)))
             if ok:
                 st = enclosing_stmt(n)
